@@ -94,7 +94,12 @@ def crash_run(variant, at_iteration, action, total=None, suspend=False, lost=Fal
             obs = []
             out_lost = []
 
+            trans = []
+
             def on_iteration(k):
+                nm = st.man.spa_state.name
+                if not trans or trans[-1][1] != nm:
+                    trans.append((k, nm))
                 if lost and k == at_iteration - 2 and action is not None and "lost" not in fired:
                     fired["lost"] = []
                     for tr in loop.endpoints:
@@ -167,9 +172,14 @@ def crash_run(variant, at_iteration, action, total=None, suspend=False, lost=Fal
                     obs.append(observe(st, loop, tracker))
                     # the manager is connected again: every connection-scoped task name is alive once - a second one belongs to the abandoned connection
                     d1 = set(duplicate_tasks(loop))
-                    await asyncio.sleep(0.6)
-                    out["dups_after_reconnect"] = sorted(d1 & set(duplicate_tasks(loop)))
+                    for _ in range(3):
+                        if not d1:
+                            break
+                        await asyncio.sleep(1.1)       # a task that is only finishing is gone by then; one that polls an abandoned queue stays
+                        d1 &= set(duplicate_tasks(loop))
+                    out["dups_after_reconnect"] = sorted(d1)
             out["iterations"] = loop.iterations
+            out["transitions"] = trans
             out["obs"] = obs
             out["states"] = [(round(t - 1000, 2), s) for (t, s) in st.states][-10:]
             if action != "exit":
@@ -262,18 +272,25 @@ def run(ctx):
         # the handshake happens in a short burst of passes after discovery (virtual second 4..5): take them all
         if not ctx.thorough:
             ks |= set(range(max(1, int(total * 0.15)), int(total * 0.26), 2))
+        # the passes around the end of a handshake (SPA_READY -> facade -> CONNECTED happen within a few passes): all of them, in both tiers and in
+        # every mode; with a suspending client the passes are numbered differently, so that mode has its own base run
+        def hot_passes(b):
+            return {x for (k, nm) in b["transitions"] if nm in ("SPA_READY", "CONNECTED") for x in range(max(1, k - 10), k + 4)}
+        hot = {False: hot_passes(base), True: hot_passes(crash_run(variant, -1, None, suspend=True))}
+        ctx.count("passes_around_the_end_of_a_handshake", len(hot[False]) + len(hot[True]))
         for action in ("reset", "exit", "reset+suspending-client", "exit+suspending-client", "reset+socket-lost", "exit+socket-lost", "exit+slow-exit-handler"):
             susp = action.endswith("client")
             lost = action.endswith("lost")
             slow = action.endswith("slow-exit-handler")      # the client's handler for SPA_MAN_EXIT stays suspended for 1.2 s: what runs meanwhile?
             action = action.split("+")[0]
-            for k in sorted(ks if not (susp or lost or slow) else {x for x in ks if x % 3 == (0 if susp else 1 if lost else 2)}):
+            for k in sorted((ks if not (susp or lost or slow) else {x for x in ks if x % 3 == (0 if susp else 1 if lost else 2)}) | hot[susp]):
                 r = crash_run(variant, k, action, suspend=susp, lost=lost, slow_exit=slow)
                 if not r["fired"]:
                     continue
                 ctx.case((variant, action, k, susp, lost, slow), nontrivial=r["state_at"] not in ("IDLE", "CONNECTED"))
                 ctx.count("crash:%s:%s%s%s" % (action, r["state_at"], ":suspending_client" if susp else "", ":socket_lost" if lost and r["lost"] else ":slow_exit_handler" if slow else ""))
-                replay = {"variant": variant, "action": action, "event_loop_pass": k, "virtual_time": round(r["t"], 3), "state_at_crash": r["state_at"], "socket_lost_two_passes_earlier": bool(lost and r["lost"]), "exit_handler_suspended_1_2_s": slow}
+                replay = {"variant": variant, "action": action, "event_loop_pass": k, "virtual_time": round(r["t"], 3), "state_at_crash": r["state_at"], "socket_lost_two_passes_earlier": bool(lost and r["lost"]), "exit_handler_suspended_1_2_s": slow,
+                          "client_handlers_suspend_for_one_pass": susp}
                 if r["action_done"] is not True:
                     ctx.fail("ledger:%s_raised:%s" % (action, r["state_at"]), "%s at pass %d (%s) did not complete: %s" % (action, k, r["state_at"], r["action_done"]), replay)
                 if r["eps_left"]:
@@ -321,8 +338,12 @@ def run(ctx):
     k11_over = [R("P"), ("LocOutcome", False, False), R("P"), R("P"), ("LocOutcome", True, False), R("P"), R("P"), ("UserReset",), R("P"), ("ConnOutcome", "next"), R("P"),
                 ("ConnOutcome", "next"), R("P"), R("P"), ("ConnOutcome", "cannot0"), R("P"), R("P"), R("P"), ("LocOutcome", False, False), R("P"), R("P"),
                 ("LocOutcome", True, False), R("P"), R("P"), R("P")]
+    N = ("ConnOutcome", "next")
+    # K13: a user reset is suspended in its RUNNING_SPA_DISCONNECTED handler while the last handshake step completes and the pump creates the facade
+    k13 = [R("P"), ("LocOutcome", False, False), R("P"), R("P"), ("LocOutcome", True, False), R("P"), R("P"), R("P"),
+           N, R("P"), N, R("P"), N, R("P"), N, R("P"), N, R("P"), ("UserReset",), N, R("P"), R("P"), R("U")]
     iexprs = []
-    runs_i = [("k11_stale_reset", k11_stale), ("k11_overwrite", k11_over)] + [("adaptive", None)] * (60 if ctx.thorough else 16)
+    runs_i = [("k11_stale_reset", k11_stale), ("k11_overwrite", k11_over), ("k13_facade_created_during_reset", k13)] + [("adaptive", None)] * (60 if ctx.thorough else 16)
     for kind, fixed in runs_i:
         if fixed is None:
             enter, start, out, alive = lifecycle_i.run_adaptive(True, ctx.rng, 70, warm=ctx.rng.random() < 0.4)
@@ -331,7 +352,13 @@ def run(ctx):
         ctx.count("interleaved_schedules")
         ctx.case(("interleaved", kind, str([x[0] for x in out if x[1]])), nontrivial=True)
         from props.C08 import ilabel
-        iexprs.append("Nat.eqb (chk_ileaks true [%s]) 0" % "; ".join("(%s, %s, %s)" % (ilabel(x[0]), vf.cbool(x[1]), vf.cbool(x[6] > 0)) for x in out))
+        iexprs.append("Nat.eqb (chk_ileaks true [%s]) 0" % "; ".join("(%s, %s, %s, %s)" % (ilabel(x[0]), vf.cbool(x[1]), vf.cbool(x[6] > 0), vf.cbool(x[7] > 0)) for x in out))
+        firstf = next((j for j, x in enumerate(out) if x[1] and x[7] > 0), None)
+        if firstf is not None:
+            ctx.count("interleaved_schedules_that_drop_a_live_facade")
+            ctx.fail("ledger:facade_dropped_undisconnected:interleaved", "a facade object the manager no longer references was never disconnected (its update task keeps running for an abandoned "
+                     "connection): after %r, step %d of a schedule in which a reset is suspended inside a handler while the connection completes" % (out[firstf][0], firstf + 1),
+                     {"kind": kind, "schedule": [x[0] for x in out[:firstf + 1] if x[1]]})
         first = next((j for j, x in enumerate(out) if x[1] and x[6] > 0), None)
         if first is not None:
             ctx.count("interleaved_schedules_that_drop_a_spa")
